@@ -65,24 +65,6 @@ Proof.
   split; reflexivity.
 Qed.
 
-(* ---------------------------------------------------------------- F13, F14: the two statistics that are not the recount *)
-
-Lemma info_total_tokens_refuted :
-  exists d p, WellFormed d /\ cli_info true None d = (d, inr p) /\
-    p_total_tokens p = -1 /\ p_total_tokens (recount d) = 0.
-Proof.
-  exists [mkUtt w_feat None (Some (mkRef false DI64 (R1 [])))]. eexists.
-  split; [apply wellformedb_iff; reflexivity|]. repeat split.
-Qed.
-
-Lemma info_rcount_refuted :
-  exists d p, WellFormed d /\ cli_info true None d = (d, inr p) /\
-    map fst (p_ref_tab p) = [-1; -1] /\ map fst (p_ref_tab (recount d)) = [-1; 2].
-Proof.
-  exists [mkUtt w_feat None (Some (mkRef false DI64 (R2 [(1, 0, 2); (1, 3, 3)])))]. eexists.
-  split; [apply wellformedb_iff; reflexivity|]. repeat split.
-Qed.
-
 (* ================================================================ the pass with info = True *)
 
 Definition ali_upd (acc : iacc) (run : Z * Z) : iacc :=
@@ -95,8 +77,8 @@ Definition ali_upd (acc : iacc) (run : Z * Z) : iacc :=
 Definition ref_upd (acc : iacc) (r : row) : iacc :=
   let '(tok, s, e) := r in
   let rc := aget (i_rcounts acc) tok 0 in
-  let rc' := if (rc >=? 0) && (e >? s) && (s >=? 0) then rc + e - s else -1 in
-  mkAcc (i_frames acc) (i_nf acc) (i_maxali acc) (Z.max (i_maxref acc) tok) (i_ntok acc + 1)
+  let rc' := if (rc >=? 0) && (e >=? s) && (s >=? 0) then rc + e - s else -1 in
+  mkAcc (i_frames acc) (i_nf acc) (i_maxali acc) (Z.max (i_maxref acc) tok) (Z.max 0 (i_ntok acc) + 1)
         (i_counts acc) (i_segs acc)
         (aset (i_rcounts acc) tok rc')
         (aset (i_rsegs acc) tok (aget (i_rsegs acc) tok 0 + 1)).
@@ -164,8 +146,9 @@ Qed.
 
 Definition info_upd (acc : iacc) (u : utt) : iacc :=
   let acc1 := mkAcc (i_frames acc + Z.of_nat (frames (u_feat u))) (Some (nth 1 (f_shape (u_feat u)) 0%nat))
-                    (i_maxali acc) (i_maxref acc) (i_ntok acc) (i_counts acc) (i_segs acc)
-                    (i_rcounts acc) (i_rsegs acc) in
+                    (i_maxali acc) (i_maxref acc)
+                    (if is_some (u_ref u) then Z.max 0 (i_ntok acc) else i_ntok acc)
+                    (i_counts acc) (i_segs acc) (i_rcounts acc) (i_rsegs acc) in
   let acc2 := match u_ali u with
               | Some a => fold_left ali_upd (rle (ali_values a)) acc1
               | None => acc1 end in
